@@ -65,6 +65,15 @@ def prep_dict(t):
     return [list(t[0])] + [[r[0], r[1], {'p': r[2], 'q': r[1]}] + list(r[3:]) for r in t[1:]]
 
 
+def prep_dict_uneven(t):
+    """dict cells whose key sets differ from row to row"""
+    out = [list(t[0])]
+    for i, r in enumerate(t[1:]):
+        d = {'p': r[2], 'q': r[1]} if i % 2 == 0 else {'q': r[1]}
+        out.append([r[0], r[1], d] + list(r[3:]))
+    return out
+
+
 def prep_textkey(t):
     """k becomes text (for regex operators working on field k)."""
     return [list(t[0])] + [[('%s-%s' % (r[0], r[1])) if len(r) > 1 else str(r[0])] + list(r[1:]) for r in t[1:]]
@@ -266,6 +275,8 @@ def entries():
     add('unpack:include', 1, lambda s: etl.unpack(s[0], 'v', ['p', 'q'], include_original=True), S, prep=prep_seq)
     add('unpackdict', 1, lambda s: etl.unpackdict(s[0], 'v', keys=['p', 'q']), S, prep=prep_dict)
     add('unpackdict:sample', 1, lambda s: etl.unpackdict(s[0], 'v', samplesize=2), 'sample', prep=prep_dict)
+    add('unpackdict:missingkey', 1, lambda s: etl.unpackdict(s[0], 'v', keys=['p', 'zz', 'q'], missing='M'), S, prep=prep_dict_uneven)
+    add('unpackdict:default', 1, lambda s: etl.unpackdict(s[0], 'v'), 'sample', prep=prep_dict_uneven)
     # ---- validation
     add('validate', 1, lambda s: etl.validate(s[0], constraints=[dict(name='v_int', field='v', test=int)],
                                               header=('k', 'a', 'v')), S + ' drop')
